@@ -13,13 +13,21 @@ import (
 	"sync"
 	"time"
 
+	"github.com/gopacket/gopacket"
 	"github.com/gopacket/gopacket/layers"
 )
 
 // IPv6Defragmenter is a struct which embedded a map of all fragment/packet.
 type IPv6Defragmenter struct {
-	container map[uint32]*fragment
+	container map[fragKey]*fragment
 	lock      *sync.Mutex
+}
+
+// fragKey identifies the datagram a fragment belongs to: the identification
+// is only unique for a given source/destination pair.
+type fragKey struct {
+	flow gopacket.Flow
+	id   uint32
 }
 
 // fragment is a IPv6 fragment list struct.
@@ -36,7 +44,7 @@ type fragment struct {
 // NewIPv6Defragmenter returns a new IPv6Defragmenter with an initialized map.
 func NewIPv6Defragmenter() *IPv6Defragmenter {
 	return &IPv6Defragmenter{
-		container: make(map[uint32]*fragment),
+		container: make(map[fragKey]*fragment),
 		lock:      &sync.Mutex{},
 	}
 }
@@ -80,9 +88,10 @@ func NewIPv6Defragmenter() *IPv6Defragmenter {
 //		// You got the ipv6 layer
 //	}
 func (d *IPv6Defragmenter) DefragIPv6(ipv6 *layers.IPv6, fg *layers.IPv6Fragment) *layers.IPv6 {
+	key := fragKey{flow: ipv6.NetworkFlow(), id: fg.Identification}
 	d.lock.Lock()
 	defer func() {
-		if f, ok := d.container[fg.Identification]; ok {
+		if f, ok := d.container[key]; ok {
 			f.time = time.Now()
 		}
 		d.lock.Unlock()
@@ -97,10 +106,10 @@ func (d *IPv6Defragmenter) DefragIPv6(ipv6 *layers.IPv6, fg *layers.IPv6Fragment
 	if in.offset == 0 {
 		in.ipv6 = ipv6
 	}
-	f, ok := d.container[fg.Identification]
+	f, ok := d.container[key]
 	if !ok {
 		// remeber the first coming
-		d.container[fg.Identification] = in
+		d.container[key] = in
 		return nil
 	}
 
@@ -112,7 +121,7 @@ func (d *IPv6Defragmenter) DefragIPv6(ipv6 *layers.IPv6, fg *layers.IPv6Fragment
 		}
 		if in.offset < f.offset {
 			if prev == nil {
-				d.container[fg.Identification] = in
+				d.container[key] = in
 				in.next = f
 				break
 			}
@@ -130,7 +139,7 @@ func (d *IPv6Defragmenter) DefragIPv6(ipv6 *layers.IPv6, fg *layers.IPv6Fragment
 		f = f.next
 	}
 
-	f = d.container[fg.Identification]
+	f = d.container[key]
 	// first one is not the first, return and continue
 	if f.offset != 0 {
 		return nil
@@ -154,7 +163,7 @@ func (d *IPv6Defragmenter) DefragIPv6(ipv6 *layers.IPv6, fg *layers.IPv6Fragment
 	}
 
 	// make the payload
-	f = d.container[fg.Identification]
+	f = d.container[key]
 	var b []byte
 	for {
 		b = append(b, f.payload...)
@@ -165,7 +174,7 @@ func (d *IPv6Defragmenter) DefragIPv6(ipv6 *layers.IPv6, fg *layers.IPv6Fragment
 	}
 	nh := f.nextheader
 
-	f = d.container[fg.Identification]
+	f = d.container[key]
 	l := &layers.IPv6{
 		Version:      6,
 		TrafficClass: f.ipv6.TrafficClass,
@@ -177,7 +186,7 @@ func (d *IPv6Defragmenter) DefragIPv6(ipv6 *layers.IPv6, fg *layers.IPv6Fragment
 	}
 	l.Payload = b
 	// the datagram is complete: forget its fragments
-	delete(d.container, fg.Identification)
+	delete(d.container, key)
 	return l
 }
 
